@@ -380,6 +380,8 @@ pub struct Loaded {
     /// Labels computed by the real graph-level `infer_shapes` for `o0..`.
     pub labels: Vec<Option<ValueType>>,
     pub has_infer_shapes: bool,
+    /// Strict-mode `infer_shapes` failed with `TypeInferenceFailed`.
+    pub strict_type_failure: bool,
 }
 
 /// Load the single-op model with optimizations off (so the operator survives verbatim).
@@ -388,7 +390,7 @@ pub fn load_case(case: &Case) -> Result<Loaded, String> {
     let mut opts = ModelOptions::with_all_ops();
     opts.enable_optimization(false);
     let model = opts.load(bytes).map_err(|e| format!("load: {e}"))?;
-    let (op_name, max_inputs, rules, has_is, labels) = {
+    let (op_name, max_inputs, rules, has_is, labels, strict_tf) = {
         let graph = model.verif_graph();
         let mut found = None;
         for (_, n) in graph.iter() {
@@ -403,15 +405,18 @@ pub fn load_case(case: &Case) -> Result<Loaded, String> {
         let labels: Vec<Option<ValueType>> = (0..case.n_out)
             .map(|i| model.find_node(&format!("o{i}")).and_then(|id| infer.types.get(&id).copied()))
             .collect();
+        let strict = rv::infer_shapes(graph, rv::InferShapeOptions { strict: true, ..Default::default() });
+        let strict_tf = matches!(strict, Err(rv::InferError::TypeInferenceFailed(_)));
         (
             op.operator().name().to_string(),
             op.operator().max_inputs(),
             rules,
             op.operator().as_infer_shapes().is_some(),
             labels,
+            strict_tf,
         )
     };
-    Ok(Loaded { model, op_name, max_inputs, rules, labels, has_infer_shapes: has_is })
+    Ok(Loaded { model, op_name, max_inputs, rules, labels, has_infer_shapes: has_is, strict_type_failure: strict_tf })
 }
 
 /// Execute the loaded single-op model on the case's inputs; returns the *connected* outputs in slot order.
